@@ -20,7 +20,7 @@ import time
 
 VERIF = os.path.dirname(os.path.abspath(__file__))
 REPO = os.environ.get("VF_REPO", "/repo")
-VENV_PY = os.path.join(VERIF, ".venv", "bin", "python")
+VENV_PY = "/verif/.venv/bin/python"      # setup.sh builds it there (also when check.py runs from a snapshot of /verif)
 
 
 def bootstrap():
